@@ -108,6 +108,19 @@ def check(run, prog, tier):
 
     # ---- S3
     reboot_before_entries(cx, "S3", "announcer")
+    # "... until the subscriber's reboot is detected": that a restart of the subscriber *is* recognised - exactly when its
+    # flag / session id history says so - is C07's table (a restart that goes unnoticed keeps the old subscriptions recorded)
+    from .. import report
+    from . import C07
+    with run.part("S3 reboot evidence"):
+        sub7 = report.subrun(C07, "C07", prog, tier, run.seed)
+        n7 = 0
+        for o in sub7.obs:
+            if o.rule in ("P1", "P2", "P3", "P4"):
+                n7 += 1
+                run.ob("S3", o.construct, o.ok, o.loc, o.msg, o.detail, o.nontrivial)
+        run.floor("S3-C07", n7, 8)
+        run.paths += sub7.paths
 
     # ---- H1 who may remove
     removers = {m.qual: m for m in cx.store_methods() if m.name != "refresh"}
